@@ -90,7 +90,7 @@ pub fn case(data: &[u8]) -> Result<Case> {
 }
 
 pub fn report_violation(prop: &str, engine: &str, oracle: &str, msg: &str, case: serde_json::Value) -> ! {
-    let dir = format!("{}/work/replays", crate::driver::VERIF);
+    let dir = format!("{}/work/replays", crate::driver::verif_dir());
     let _ = std::fs::create_dir_all(&dir);
     let rp = crate::driver::Replay2 { property: prop.into(), oracle: oracle.into(), msg: msg.into(), engine: engine.into(), tree_rev: String::new(), case };
     let body = serde_json::to_string_pretty(&rp).unwrap();
